@@ -611,7 +611,10 @@ func rawEncoderCompressAlways(p *Prog, r *Report, key string) {
 			continue
 		}
 		noData := guardedBy(ret, func(a Atom) bool {
-			m, isNil := nilTestOn(a, func(v ssa.Value) bool { return loadedField(canon(v)) == dataF })
+			// no payload at all: the Data oneof is unset, or there is no MessageContents
+			m, isNil := nilTestOn(a, func(v ssa.Value) bool {
+				return loadedField(canon(v)) == dataF || canon(v) == ssa.Value(wmsg.Params[0])
+			})
 			return m && isNil
 		})
 		if noData {
